@@ -22,7 +22,9 @@ Focus  == Bounds \cup {"issueLow", "issueHigh", "cOrder", "sOrder"}
 Ds == {-Far, -2, -1, 0, 1, 2, Far}                            \* distance from the edge, in seconds
 Ks == {0, 1, 2}                                               \* additional multiples of the allowance
 
-Scn == [present : SUBSET Bounds, focus : Focus, d : Ds, k : Ks, slack : Slacks, spelling : Spellings]
+\* conf2: a second bearer confirmation, comfortably valid, before or after the one the scenario varies
+Conf2 == {"none", "validFirst", "validSecond"}
+Scn == [present : SUBSET Bounds, focus : Focus, d : Ds, k : Ks, slack : Slacks, spelling : Spellings, conf2 : Conf2]
 
 Comfort(b) == IF b \in {"cNB", "sNB"} THEN -3 * Day ELSE 3 * Day
 
@@ -48,6 +50,7 @@ WellFormed(s) ==
     /\ (s.focus = "sOrder" => {"sNB", "sNOOA"} \subseteq s.present /\ s.slack >= 60 /\ s.d \in -2..2 /\ s.k = 0)
     /\ (s.k > 0 => s.slack > 0 /\ s.d # Far /\ s.d # -Far)
     /\ (s.focus \in {"issueLow", "issueHigh"} => s.d # -Far)
+    /\ (s.conf2 # "none" => s.focus \in {"sNOOA", "sNB", "sOrder"} /\ s.k = 0 /\ s.spelling = "Z")
 
 VARIABLES scn, pc, verdict, nooa
 vars == <<scn, pc, verdict, nooa>>
@@ -72,11 +75,14 @@ Conditions   == /\ pc = "conditions"
                 /\ IF \/ (P("cNB") /\ P("cNOOA") /\ V("cNOOA") < V("cNB"))
                       \/ TooOld("cNOOA") \/ TooEarly("cNB")
                    THEN Reject ELSE Goto("bearer")
-\* _bearer_confirmed: an unconfirmed bearer leaves no valid subject confirmation
+\* _bearer_confirmed: a confirmation outside its window, or whose NotBefore is later than its NotOnOrAfter
+\* (repaired: used to be skipped), fails the response; one with a NotBefore only is merely not confirmed and
+\* skipped -- with no other confirmation left there is no valid subject confirmation
+Inverted == P("sNB") /\ P("sNOOA") /\ V("sNOOA") < V("sNB")
+Unconfirmed == P("sNB") /\ ~P("sNOOA")
 Bearer == /\ pc = "bearer"
-          /\ IF \/ TooOld("sNOOA") \/ TooEarly("sNB")
-                \/ (P("sNB") /\ ~P("sNOOA"))                              \* later_than(None, nb) is false
-                \/ (P("sNB") /\ P("sNOOA") /\ V("sNOOA") < V("sNB"))
+          /\ IF \/ TooOld("sNOOA") \/ TooEarly("sNB") \/ Inverted
+                \/ (Unconfirmed /\ scn.conf2 = "none")
              THEN Reject
              ELSE /\ verdict' = "accept" /\ pc' = "done" /\ UNCHANGED scn
                   /\ nooa' = IF P("sess") THEN V("sess") ELSE IF P("cNOOA") THEN V("cNOOA") ELSE 0
@@ -104,7 +110,7 @@ ExpectedExpiry == IF P("sess") THEN V("sess") ELSE V("cNOOA")
 
 Emit == /\ pc = "done" /\ pc' = "emitted"
         /\ PrintT(<<"CASE", ToJson([scn |-> [present |-> scn.present, focus |-> scn.focus, d |-> scn.d, k |-> scn.k,
-                                             slack |-> scn.slack, spelling |-> scn.spelling],
+                                             slack |-> scn.slack, spelling |-> scn.spelling, conf2 |-> scn.conf2],
                                     vals |-> [b \in Bounds |-> IF P(b) THEN ToString(V(b)) ELSE "absent"], issue |-> Issue(scn),
                                     model |-> verdict, mustAccept |-> MustAccept, mustReject |-> MustReject,
                                     expiry |-> IF ExpiryKnown THEN ToString(ExpectedExpiry) ELSE "unspecified"])>>)
